@@ -399,3 +399,57 @@ def register(app, directory: str, title: str, tracks: dict, timing_from: Optiona
         p.write_bytes(data)
         files.append((name, p))
     return app.add_stream(directory, title, files, real_index=True, timing_from=timing_from)
+
+
+# ------------------------------------------------------------------ self-test
+
+def _selftest() -> int:
+    """`/venv/bin/python harness/mp4synth.py` – write a few synthetic streams, have the REAL
+    dashlive index them (`Mp4Atom.load` + `Representation.load` through appboot) and fetch the
+    vod manifest, the init segment and every media segment (expect 200 each).  Only this
+    function touches dashlive; the writer itself does not."""
+    import os
+    import sys
+    here = Path(__file__).resolve().parent
+    for p in (str(here.parent / "shims"), os.environ.get("DASHLIVE_REPO", "/repo"), str(here)):
+        if p not in sys.path:
+            sys.path.insert(0, p)
+    import appboot
+    import mp4walk
+    app = appboot.App()
+    bad = 0
+    n = 0
+    variants = [
+        dict(), dict(with_tfdt=False), dict(with_styp=True, with_sidx=True, with_emsg=2),
+        dict(encrypted=True), dict(encrypted=True, iv_size=16, traf_order="senc_first", saio_version=1),
+        dict(base="explicit"), dict(base="implicit", sample_durations_in="tfhd"),
+        dict(base="explicit-mdat"), dict(first_decode_time=2 ** 32 + 7, encrypted=True, with_sidx=True),
+    ]
+    with appboot.Clock("2024-01-01T00:00:00Z"):
+        for i, kw in enumerate(variants):
+            d = f"synthtest{i}"
+            v = make_track(kind="video", durations=[960, 1000, 900, 960], samples_per_segment=[4, 5, 3, 4], seed=i, **kw)
+            a = make_track(kind="audio", track_id=2, durations=[88200] * 4, samples_per_segment=20, seed=100 + i,
+                           **{k: x for k, x in kw.items()})
+            mp4walk.walk(v), mp4walk.walk(a)           # the independent reader accepts the independent writer
+            register(app, d, d, {f"{d}_v": v, f"{d}_a": a})
+            c = app.client()
+            q = "?drm=all" if kw.get("encrypted") else ""
+            urls = [f"/dash/vod/{d}/hand_made.mpd{q}"]
+            for name, ext in ((f"{d}_v", "m4v"), (f"{d}_a", "m4a")):
+                urls.append(f"/dash/vod/{d}/{name}/init.{ext}{q}")
+                urls += [f"/dash/vod/{d}/{name}/{k}.{ext}{q}" for k in range(1, 5)]
+            for u in urls:
+                r = c.get(u)
+                n += 1
+                if r.status_code != 200:
+                    bad += 1
+                    print("FAIL", r.status_code, u)
+                elif not u.split("?")[0].endswith(".mpd"):
+                    mp4walk.walk(r.data)
+    print(f"mp4synth selftest: {n} requests, {bad} not 200")
+    return 1 if bad else 0
+
+
+if __name__ == "__main__":
+    raise SystemExit(_selftest())
